@@ -114,7 +114,13 @@ fn find_stmt_with_symbol<'a>(stmts: &'a [D], kind: &str) -> Option<&'a D> {
 pub fn semt_case(form: &str, target: &str, is_const: bool, prelude: &str, value: &str, lit: &str) -> Option<String> {
     // probe statement gives the value's own type and shape
     let decl_kw = if is_const { "const " } else { "" };
-    let text = if form == "decl" {
+    // "redecl": the same declaration when the name is already declared in this scope -- the initializer is
+    // checked all the same (reported to the model as a declaration; the redeclaration diagnostic is expected)
+    let redecl = form == "redecl";
+    let form = if redecl { "decl" } else { form };
+    let text = if redecl {
+        format!("{prelude}\n{target} x;\n{value};\n{decl_kw}{target} x = {value};")
+    } else if form == "decl" {
         format!("{prelude}\n{value};\n{decl_kw}{target} x = {value};")
     } else {
         format!("{prelude}\n{value};\n{target} x;\nx = {value};")
@@ -172,7 +178,7 @@ pub fn semt_case(form: &str, target: &str, is_const: bool, prelude: &str, value:
         "semt\t{form}\t{sym_ty}\t{val_ty}\t{lit}\tcast={};diag={};other={}\t{oracle}",
         cast.min(1),
         type_diag as u8,
-        diags.iter().filter(|k| !["IncompatibleTypesError", "CastError", "IncompatibleDimensionError"].contains(k)).cloned().collect::<Vec<_>>().join(","),
+        diags.iter().filter(|k| !["IncompatibleTypesError", "CastError", "IncompatibleDimensionError"].contains(k) && !(redecl && k.starts_with("RedeclarationError"))).cloned().collect::<Vec<_>>().join(","),
     ))
 }
 
@@ -255,6 +261,11 @@ pub fn run(args: &[String]) {
                     count += 1;
                     if count % nshards != shard {
                         continue;
+                    }
+                    if form == "decl" && !is_const {
+                        if let Some(line) = semt_case("redecl", &target, is_const, &prelude, &value, lit) {
+                            writeln!(w, "{line}").unwrap();
+                        }
                     }
                     if let Some(line) = semt_case(form, &target, is_const, &prelude, &value, lit) {
                         writeln!(w, "{line}").unwrap();
